@@ -214,7 +214,7 @@ func runC02(c *report.Ctx) {
 		}
 		ok := false
 		var site ssa.Instruction
-		an.Instrs(f, func(in ssa.Instruction) {
+		instrsWithLiterals(f, func(in ssa.Instruction) {
 			cc := an.CallOf(in)
 			if cc == nil || !cc.IsInvoke() || cc.Method.Name() != "NewIterator" || !isBucketIface(cc.Value.Type()) {
 				return
@@ -230,6 +230,53 @@ func runC02(c *report.Ctx) {
 				}
 			}
 		})
+		if !ok {
+			// the scan may sit in a helper of the package that receives the wallet id: follow the prefix back to f's argument
+			tr := &an.Tracer{P: p, ThroughSlice: true, Leaf: func(v ssa.Value) bool { _, isCall := v.(*ssa.Call); return isCall }}
+			for _, g := range reachIn(p, f, pkgTxmgr) {
+				if g == f {
+					continue
+				}
+				instrsWithLiterals(g, func(in ssa.Instruction) {
+					cc := an.CallOf(in)
+					if cc == nil || !cc.IsInvoke() || cc.Method.Name() != "NewIterator" || !isBucketIface(cc.Value.Type()) || ok {
+						return
+					}
+					onUnspent := false
+					for _, op := range schemaOps(p) {
+						if op.Site == in && op.Bucket == "nsUnspent" {
+							onUnspent = true
+						}
+					}
+					pre, isCall := cc.Args[0].(*ssa.Call)
+					if !onUnspent || !isCall || pre.Call.StaticCallee() == nil || nm(pre.Call.StaticCallee()) != "BytesPrefix" {
+						return
+					}
+					all, any := true, false
+					for _, o := range tr.Origins(stripConv(pre.Call.Args[0])) {
+						// only the contexts that come from f count
+						fromF := false
+						for _, a := range o.Ascent {
+							if apiOwnerOrSelf(p, a.Parent()) == f {
+								fromF = true
+							}
+						}
+						if !fromF {
+							continue
+						}
+						any = true
+						d := p.Desc(o.V)
+						if !(strings.Contains(d, "CurrentKeystore(") && strings.Contains(d, ".Name(")) {
+							all = false
+						}
+					}
+					if any && all {
+						ok = true
+						site = in
+					}
+				})
+			}
+		}
 		key := sk(f) + ":iterates-current-wallet-prefix"
 		if ok {
 			c.OK(key, "NewIterator(BytesPrefix(CurrentKeystore().Name())) on the unspent bucket", posOf(c, site))
